@@ -141,7 +141,12 @@ SAMPLES = [
         a=i,
         b=2 * i + 1,
         tag="tagA" if i % 2 else "tagB",
-        jets=le.Seq([le.Rec(pt=j * 3 + i, eta=j - 1) for j in range(i % 4)]),
+        jets=le.Seq([le.Rec(pt=j * 3 + i, eta=j - 1,
+                            trk=le.Rec(id=10 * i + j, value=j + 0.5, attr=j % 2))
+                     for j in range(i % 4)]),
+        # attribute names that also are field names of ast nodes (id, value, attr, slice, ...)
+        hit=le.Rec(id=7 * i + 1, value=i + 0.25, attr=i % 3, ctx=i, args=2 * i),
+        hits=le.Seq([le.Rec(value=i + k, slice=k, id=k) for k in range(2)]),
     )
     for i in range(6)
 ]
@@ -246,6 +251,15 @@ def gen_site(rng, boom_ok=False):
             lambda: f"{e}.jets.Select(lambda {k}: {k}.pt).Select(lambda {j}: {j} + {e}.jets.Select(lambda {j}: {j}.eta + {v()}).Count() + {j})",
             lambda: f"{e}.jets.Select(lambda {k}: {k}.pt).Select(lambda {j}: [{j}.eta for {j} in {e}.jets if {j}.pt > {v()}].Count() + {j})",
         ]
+        # attributes of bound names that are spelled like fields of ast nodes
+        forms += [
+            lambda: f"{e}.hit.id + {v()}",
+            lambda: f"{e}.hit.value * {v()} + {e}.hit.attr",
+            lambda: f"{e}.jets.Select(lambda {j}: {j}.trk.id + {v()})",
+            lambda: f"{e}.jets.Where(lambda {j}: {j}.trk.value > {v()}).Count() + {e}.hit.args",
+            lambda: f"{e}.hits[0].value + {v()} + {e}.hits[1].slice",
+            lambda: f"[{j}.trk.attr + {e}.hit.ctx + {v()} for {j} in {e}.jets]",
+        ]
         # comprehensions with several generators (lowered to nested Selects: the comparison
         # with Python's flat result is made on flattened values), and set / dict comprehensions
         # (left as they are, with their captured names replaced)
@@ -279,6 +293,8 @@ def gen_site(rng, boom_ok=False):
             lambda: f"{e}.tag == {tag()}",
             lambda: f"{e}.jets.Where(lambda {j}: {j}.pt > {v()}).Count() > 0",
             lambda: f"{e}.a > {v()} or {e}.tag != {tag()}",
+            lambda: f"{e}.hit.id > {v()}",
+            lambda: f"{e}.hits[0].value > {v()} and {e}.hit.attr < {v()}",
         ]
         body = rng.choice(forms)()
     else:
